@@ -50,6 +50,10 @@ sx_enum! {
         // on the unmatched archetype, from inside the closure of the query in flight; pk = k + 1: the
         // closure of the nested macro panics at its k-th visit (0 = never)
         OtherQuery { kind: u8, n: u32, mask: u32, pk: u32 },
+        // mut-mode: a whole `ecs_iter_destroy!` of the SAME site on ANOTHER world (a replica or an
+        // unrelated world of the same type) from inside the closure: the same archetype types are in
+        // flight in two worlds at once
+        AltQuery { n: u32, mask: u32 },
     }
 }
 
